@@ -52,7 +52,7 @@ BY_PROPERTY = {
     'C17': [('Mahotas.Proofs.PyBodyTiesC17', ['Mahotas.pybody_convolve__wavelet_center_compute_eq_model',
                                               'Mahotas.pybody_convolve_wavelet_center_eq_model',
                                               'Mahotas.pybody_convolve_wavelet_decenter_eq_model'])],
-    'C18': [('Mahotas.Proofs.PyBodyTiesC18', ['Mahotas.pybody_resize_resize_to_eq_model']),
+    'C18': [('Mahotas.Proofs.PyBodyTiesC18', ['Mahotas.pybody_resize_resize_to_eq_model', 'Mahotas.pybody_resize_imresize_eq_model']),
             ('Mahotas.Proofs.PyBodyTiesC18b', ['Mahotas.pybody_interpolate_zoom_output_shape_eq_model',
                                                'Mahotas.pybody_interpolate_zoom_output_shape_zoomOutShape'])],
     'C06': [('Mahotas.Proofs.PyBodyTiesC06', ['Mahotas.pybody_convolve_gaussian_filter1d_eq_model',
